@@ -143,11 +143,15 @@ func c09Case(ctx *genCtx, ts *tape.Set, dir string) *genResult {
 	pt := ts.Fork("plan")
 	plans := []*Plan{{MapMode: "identity"}, drawPlan(pt)}
 	var exits []int
+	var ops []traceOp
 	for i, plan := range plans {
 		d := filepath.Join(dir, fmt.Sprintf("r%d", i))
 		writeWorld(d, files)
 		r, v := c09Oracle(ctx, d, files, worldPkgs(w), plan, s)
 		res.count(r)
+		if i == 0 {
+			ops = r.Ops
+		}
 		exits = append(exits, r.Exit)
 		res.probe(fmt.Sprintf("outcome.exit%d", r.Exit))
 		if v != nil {
@@ -168,5 +172,30 @@ func c09Case(ctx *genCtx, ts *tape.Set, dir string) *genResult {
 			Facts: map[string]string{"sources": joinFiles(userSources(files)), "kind": s.Kind}}
 	}
 	res.Sample["exits"] = exits
+	if ft := ts.Fork("iofault"); res.V == nil && len(ops) > 0 && ft.Chance(1, 3) {
+		// the same world once more with one failing file-system call: the run must still end
+		// cleanly, and exit 0 must still mean generated files that parse and type-check
+		o := ops[ft.Intn(len(ops))]
+		f := Fault{Kind: "err", Op: o.Idx, Errno: []string{"EIO", "EACCES", "ENOSPC", "EROFS"}[ft.Intn(4)]}
+		if o.Kind == "write" && ft.Bool() {
+			f = Fault{Kind: "short-write", Op: o.Idx, K: ft.Intn(o.N + 1), Errno: "ENOSPC"}
+		}
+		d := filepath.Join(dir, "rf")
+		writeWorld(d, files)
+		r, v := c09Oracle(ctx, d, files, worldPkgs(w), &Plan{MapMode: "identity", Faults: []Fault{f}}, world.NegSnippet{})
+		res.count(r)
+		res.Sample["io_fault"] = fmt.Sprintf("%s %s on %s (op %d) -> exit %d", f.Kind, f.Errno, o.Kind, o.Idx, r.Exit)
+		if strings.Contains(r.Trace, "fault ") {
+			res.fault(f.Kind + "-" + o.Kind)
+		}
+		if v != nil {
+			if v.Clause == "crash" || v.Clause == "hang" {
+				res.SawPanic = true
+			}
+			v.Detail = fmt.Sprintf("with %s (%s) injected into %s #%d: %s", f.Kind, f.Errno, o.Kind, o.Idx, v.Detail)
+			v.Clause = "iofault-" + v.Clause
+			res.V = v
+		}
+	}
 	return res
 }
